@@ -149,6 +149,16 @@ Definition code_ok (c : Z) : bool := (0 <=? c) && (c <? 4294967296).
    io.EOF, and invoke / the application go on to RecvMsg, which yields the server's status. *)
 Definition early_code (c : Z) : Z := if c =? 0 then 12 else c.
 
+(* src 9: the method has a retry policy, the attempt fails trailers-only with a retryable code
+   and attempts are left, so csAttempt.shouldRetry sleeps the back-off (10 s); the RPC's
+   context expires (c = 0) or is cancelled (c <> 0) during that sleep:
+   status.FromContextError -> DEADLINE_EXCEEDED / CANCELED.
+   src 10: the server allows one concurrent stream, it is taken by another RPC, this RPC is
+   parked inside http2Client.NewStream waiting for stream quota when the server's GOAWAY
+   (GracefulStop) arrives: errStreamDrain, transparently retried; the listener is closed, so
+   the channel goes to TRANSIENT_FAILURE and the fail-fast RPC ends UNAVAILABLE. *)
+Definition backoff_code (c : Z) : Z := if c =? 0 then 4 else 1.
+
 (* op [1; depth; kind; c]            toRPCErr(NewStreamError^depth(mk_err kind c))
    op [2; src; ff; api; kind; c]     one RPC (api 0 Invoke, 1 NewStream/SendMsg/RecvMsg) *)
 Definition run_op (op : word) : option word :=
@@ -157,10 +167,12 @@ Definition run_op (op : word) : option word :=
     if (0 <=? d) && (d <=? 8) && code_ok c then Some (obs_of (toRPCErr (wrap_nse (Z.to_nat d) (mk_err kind c))))
     else None
   | [2; src; ff; api; kind; c] =>
-    if code_ok c && (1 <=? src) && (src <=? 8) && negb (src =? 5) then
+    if code_ok c && (1 <=? src) && (src <=? 10) && negb (src =? 5) then
       if src =? 6 then Some (obs_of (if c =? 0 then ENil else EStatus c))
       else if src =? 7 then Some (obs_of (EStatus (if z2b ff then 14 else 4)))
       else if src =? 8 then Some (obs_of (EStatus (early_code c)))
+      else if src =? 9 then Some (obs_of (EStatus (backoff_code c)))
+      else if src =? 10 then Some (obs_of (EStatus 14))
       else Some (obs_of (rpc src (z2b ff) (mk_err kind c)))
     else None
   | _ => None
@@ -220,6 +232,7 @@ Definition clause_op (k : Z) (op o : word) : list (Z * Z * bool) :=
       [(3, k, if c =? 0 then is_nil_obs o else is_status_obs o && (code_obs o =? c))]
     else if src =? 7 then [(1, k, is_status_obs o)]
     else if src =? 8 then [(1, k, is_status_obs o); (3, k, code_obs o =? early_code c)]
+    else if (src =? 9) || (src =? 10) then [(1, k, is_status_obs o)]
     else
       let e := mk_err kind c in
       if is_nil_err e then [(3, k, is_nil_obs o)] else clause_rpc k src e o
